@@ -24,6 +24,7 @@ type CliCase struct {
 	More  []*ref.Node `json:"more,omitempty"` // further trees of the input stream
 	First bool        `json:"more_first,omitempty"`
 	ToFile bool       `json:"to_file,omitempty"`
+	InMode string     `json:"in_mode,omitempty"`
 }
 
 func (c CliCase) stream() []*ref.Node {
@@ -69,7 +70,7 @@ func checkCli(c CliCase) error {
 	if c.ToFile {
 		of = "-o"
 	}
-	return cli.DifferentialOut(args, text, nil, of, func() (string, error) {
+	return cli.DifferentialIn(args, text, nil, of, c.InMode, func() (string, error) {
 		out := ""
 		if c.Kind == "resolve" {
 			rand.Seed(c.Seed)
@@ -103,7 +104,7 @@ func checkCli(c CliCase) error {
 func TestC07Cli(t *testing.T) {
 	h.Run(t, h.Spec[CliCase]{
 		Property: "C07", Name: "cli", Quick: 1600, Thorough: 32000,
-		Rule: "`gotree collapse length -l / support -s / depth -m -M` with --root and --tips, and `gotree resolve --seed`, on the generated trees and thresholds of the library checks: the printed tree must be byte-identical to what the library call gives; half of the inputs are streams of 2-3 trees of different sizes; non-trivial = >= 5 tips",
+		Rule: "`gotree collapse length -l / support -s / depth -m -M` with --root and --tips, and `gotree resolve --seed`, on the generated trees and thresholds of the library checks: the printed tree must be byte-identical to what the library call gives; the input comes on stdin, as a file, as a gzip file or as a Nexus document (--format nexus); half of the inputs are streams of 2-3 trees of different sizes; non-trivial = >= 5 tips",
 		Gen: func(t *rapid.T, thorough bool) CliCase {
 			c := CliCase{Case: genCase(t, false), Seed: rapid.Int64Range(0, 1<<31).Draw(t, "seed")}
 			if rapid.IntRange(0, 3).Draw(t, "resolve") == 0 {
@@ -120,6 +121,7 @@ func TestC07Cli(t *testing.T) {
 			}
 			c.First = rapid.Bool().Draw(t, "morefirst")
 			c.ToFile = rapid.IntRange(0, 2).Draw(t, "tofile") == 0
+			c.InMode = rapid.SampledFrom(cli.InModes).Draw(t, "inmode")
 			return c
 		},
 		Check: checkCli,
